@@ -30,6 +30,7 @@ PROP = dict(
           "commitment covers, amount vs the commitment owner's dust limit at that commitment's fee rate for the channel "
           "type). Evaluations of this job are sub-cases; its case count is the number of schedules."),
     assumptions=[
+        'fourth session: preimage knowledge kinds of the generated scenarios: unknown / witness beacon / settled invoice / witness beacon plus an unsettled hold invoice for the hash in the registry / only such a hold invoice (unknown)',
         "Decision/Resolution jobs: HTLC sets are synthesised; every HTLC is in a stage the update protocol can reach: offered on ours => on the peer's current; received => on ours. The Sim job takes the sets from real lnwallet commitments instead (dust marking OutputIndex<0, all three commitments incl. the pending RemoteCommitChainTip)",
         "Decision/Resolution jobs: ContractResolutions handed to the arbitrator are consistent with the confirmed commitment (one resolution per non-dust HTLC there). The Sim job uses the resolutions lnwallet really builds (via the real chain watcher) and checks their number per direction against the model",
         "Sim job: expectations come from the simulator's bookkeeping model (never from lnwallet's markings); a resolver is matched to its HTLC by (direction, HTLC index) and must carry that HTLC's amount/hash/expiry and point at a distinct output of the confirmed transaction with the HTLC's sat value (script validity of the spends is C05's subject); ForceCloseChan returns the stored commitment unsigned and does not mark the channel borked; no breach / cooperative close (C04 / synthesised job); live-mode ContractUpdates carry the HTLC lists of the side's database at each sign / revoke / received revocation (the lists lnwallet returns to the link are not captured by the simulator)",
